@@ -147,7 +147,7 @@ def _convert(stmts, emit):
     if not _has_return([s]):
         return [s] + _convert(rest, emit)
     if isinstance(s, ast.If):
-        new = ast.If(s.test, _convert(list(s.body) + rest, emit), _convert(list(s.orelse) + rest, emit))
+        new = ast.If(s.test, _convert(list(s.body) + rest, emit) or [ast.copy_location(ast.Pass(), s)], _convert(list(s.orelse) + rest, emit))
         return [ast.copy_location(new, s)]
     if isinstance(s, ast.Match):
         cases = []
